@@ -732,10 +732,17 @@ func c10JT808(c *core.Collector, x *Ctx, parsing bool) {
 				c.Eval()
 				c.NonTrivial(core.HashBytes(cn.Writes...))
 				if i%10 == 9 {
+					r0 := rounds.Load()
 					ok, to := c10Probe(srv.Addr, x.Batch*100000+a*10000+i)
 					pmu.Lock()
 					probes++
 					pmu.Unlock()
+					if to && rounds.Load()-r0 >= 20 {
+						// 30 s without an answer for the fresh terminal while the two established canary sessions were served
+						// twenty rounds and more: the machine is not slow, new terminals are not being served
+						c.Violate("stall|fresh terminals are not served while established sessions are", fmt.Sprintf("after attacker %d connection %d: no answer in 30 s, canaries served %d rounds meanwhile; last hostile writes %s; service goroutines: %v", a, i, rounds.Load()-r0, trunc(c10Hex(cn.Writes), 300), goroutineDump()), map[string]any{"last_hostile": c10Hex(cn.Writes)})
+						return
+					}
 					if to {
 						c.Inconclusive()
 					} else if !ok {
